@@ -177,9 +177,40 @@ func c03R1(c *Ctx) {
 		if call, ok := n.(*ast.CallExpr); ok {
 			if sel, ok := ast.Unparen(call.Fun).(*ast.SelectorExpr); ok && sel.Sel.Name == "Before" && strings.HasSuffix(exprString(sel.X), ".LastUpdateTime") && len(call.Args) == 1 && strings.HasSuffix(exprString(call.Args[0]), ".LastUpdateTime") {
 				// receiver is the current best, argument the candidate
-				recvBase := exprString(ast.Unparen(sel.X).(*ast.SelectorExpr).X)
-				results := fi.Decl.Type.Results.List
-				if len(results) >= 2 && len(results[1].Names) == 1 && recvBase == results[1].Names[0].Name {
+				recvBase := identObj(fi.Info(), ast.Unparen(sel.X).(*ast.SelectorExpr).X)
+				argBase := types.Object(nil)
+				if as, ok := ast.Unparen(call.Args[0]).(*ast.UnaryExpr); ok {
+					if s2, ok := ast.Unparen(as.X).(*ast.SelectorExpr); ok {
+						argBase = identObj(fi.Info(), s2.X)
+					}
+				} else if s2, ok := ast.Unparen(call.Args[0]).(*ast.SelectorExpr); ok {
+					argBase = identObj(fi.Info(), s2.X)
+				}
+				// the current best is the variable the function returns as its second result
+				// (a named result, or the one variable every return statement names there)
+				var best types.Object
+				if results := fi.Decl.Type.Results.List; len(results) >= 2 && len(results[1].Names) == 1 {
+					best = fi.Info().Defs[results[1].Names[0]]
+				} else {
+					uniform := true
+					ast.Inspect(fi.Decl.Body, func(m ast.Node) bool {
+						if _, ok := m.(*ast.FuncLit); ok {
+							return false
+						}
+						if ret, ok := m.(*ast.ReturnStmt); ok && len(ret.Results) == 3 {
+							o := identObj(fi.Info(), ret.Results[1])
+							if o == nil || (best != nil && o != best) {
+								uniform = false
+							}
+							best = o
+						}
+						return true
+					})
+					if !uniform {
+						best = nil
+					}
+				}
+				if best != nil && recvBase == best && argBase != nil && argBase != best {
 					okCmp = true
 				}
 			}
